@@ -9,6 +9,7 @@ from vlib import c05_harness as H
 from vlib import c06_abi as A
 from vlib import configs as C
 from vlib import coqrun
+from vlib.c06_exits import selector, sig
 
 LEVEL = "proof"
 META = {
@@ -304,9 +305,11 @@ def run(ctx):
         def lst(kind=None):
             return "[" + "; ".join(c for j, (c, _) in enumerate(cs) if kind is None or used(kind, j)) + "]"
         has_len = t[0] in ("bytes", "string", "darr")
-        exprs.append(pre + f"join (expect_call t [1;2;3;4] base {lst()})")
+        # the REAL selectors: an offset word in [2^256-4, 2^256-1] wraps into the selector bytes
+        zs = lambda name, tys: "[" + ";".join(str(x) for x in selector(sig(name, tys))) + "]"   # noqa
+        exprs.append(pre + f"join (expect_call t {zs('echo', [t])} base {lst()})")
         exprs.append(pre + f"join (expect_payload t base {lst('pay')})")
-        exprs.append(pre + (f"join (expect_len t [1;2;3;4] base {lst()})" if has_len else 'EmptyString'))
+        exprs.append(pre + (f"join (expect_len t {zs('ln', [t])} base {lst()})" if has_len else 'EmptyString'))
         exprs.append(pre + f"join (expect_mem t base {lst('mem')})")
         exprs.append(pre + f"join (expect_ret t base {lst('ret')})")
         # keyword-argument entry points kw(x), kw(x,b), kw(x,b,c): prefix tuples, defaults 5 and 0x0102
@@ -315,12 +318,13 @@ def run(ctx):
         kcl = "[" + "; ".join(c for c, _ in kwc) + "]"
         cvv = A.coq_val(t, v)
         tfull = f"(TTuple [{A.coq_ty(t)}; TUInt 8; TBytes 4])"
+        ksel = [zs("kw", [t]), zs("kw", [t, ("uint", 8)]), zs("kw", [t, ("uint", 8), ("bytes", 4)])]
         for kk, (tp, vp, dfl) in enumerate([
                 (f"(TTuple [{A.coq_ty(t)}])", f"[{cvv}]", "[VInt 5; VBytes [1;2]]"),
                 (f"(TTuple [{A.coq_ty(t)}; TUInt 8])", f"[{cvv}; VInt 200]", "[VBytes [1;2]]"),
                 (tfull, f"[{cvv}; VInt 200; VBytes [170;187;204]]", "[]")]):
             kw_exprs.append(f"let tp := {tp} in let base := enc tp (VList {vp}) in "
-                            f"join (expect_kw tp {tfull} {dfl} [1;2;3;4] base (enc {tfull} (VList ({vp} ++ {dfl}))) {kcl})")
+                            f"join (expect_kw tp {tfull} {dfl} {ksel[kk]} base (enc {tfull} (VList ({vp} ++ {dfl}))) {kcl})")
         # returndata classes with the caller's own argument (a valid-looking payload) left in the call buffer
         xv = A.gen_value(r, t, "max")
         xvs.append(xv)
@@ -456,7 +460,6 @@ def run(ctx):
             bl.append(base)
             k += 1
         chosen = [cfgs[(ti * per + j) % len(cfgs)] for j in range(per)]
-        from vlib.c06_exits import selector, sig
         kwsel = [selector(sig("kw", [t])), selector(sig("kw", [t, ("uint", 8)])), selector(sig("kw", [t, ("uint", 8), ("bytes", 4)]))]
         for cfg in chosen:
             jobs.append((src, cfg, bl, inputs, kwsel, t,
